@@ -78,7 +78,8 @@ class ParserState:
         assert self.parser
 
         if skip := self.parser.rules.get("SKIP"):
-            return skip.parse(self, pairs)
+            with self.suppress_failures():
+                return skip.parse(self, pairs)
 
         # Unoptimized whitespace and comment rules.
         whitespace_rule = self.parser.rules.get("WHITESPACE")
